@@ -545,6 +545,31 @@ struct MiriPhase {
 }
 
 fn miri_phase(property: &'static str, kind: &'static str, n_scenarios: usize, seed: u64, tier: Tier) -> MiriPhase {
+  if kind != "c14" {
+    return miri_phase_kind(property, kind, n_scenarios, seed, tier);
+  }
+  // concurrent callers, plus (at the same time) the barrier-synchronised cold-start scenarios
+  if let Err(e) = miri::build() {
+    let mut ph = MiriPhase { findings: vec![], harness_errors: vec![e], extra: serde_json::json!({}), runs: 0, distinct: Default::default() };
+    ph.extra = serde_json::json!({"error": "build failed"});
+    return ph;
+  }
+  let (mut ph, t) = std::thread::scope(|sc| {
+    let a = sc.spawn(|| miri_phase_kind(property, kind, n_scenarios, seed, tier));
+    let b = sc.spawn(|| miri_phase_kind(property, "twin", 4, seed, tier));
+    (a.join().expect("miri phase"), b.join().expect("miri phase"))
+  });
+  {
+    ph.findings.extend(t.findings);
+    ph.harness_errors.extend(t.harness_errors);
+    ph.runs += t.runs;
+    ph.distinct.extend(t.distinct);
+    ph.extra = serde_json::json!({"concurrent_callers": ph.extra, "twin_cold_start": t.extra});
+  }
+  ph
+}
+
+fn miri_phase_kind(property: &'static str, kind: &'static str, n_scenarios: usize, seed: u64, tier: Tier) -> MiriPhase {
   let mut ph = MiriPhase { findings: vec![], harness_errors: vec![], extra: serde_json::json!({}), runs: 0, distinct: Default::default() };
   if std::env::var("VERIF_NO_MIRI").is_ok() {
     ph.extra = serde_json::json!({"skipped": "VERIF_NO_MIRI set"});
